@@ -89,6 +89,7 @@ class Case:
         self.val = make_val(rnd.random(), p_true)
         self.force_false = False
         self.pr = Probes(val=lambda stepno, tid: (False if self.force_false else self.val(stepno, tid)))
+        self.pr.guard_sees_actions = True
         if rnd.random() < 0.2:
             # another interpreter ran on the very same Statechart object before: nothing may leak through the model
             acc.count('cases_with_earlier_interpreter_on_same_statechart')
